@@ -410,6 +410,11 @@ func evalConstructorDeclareStmt(vm *r.VM, node *syntax.FunctionDeclareStmt) erro
 	if module == r.NativeCodeModule {
 		return zerr.NameRedeclared(className.GetLiteral())
 	}
+	// ... also when the predefined type is reached through another name (an 输入 of a
+	// method that was given 异常): a type defined in native code has no defining module
+	if cmodel.GetModule() == nil {
+		return zerr.NameRedeclared(className.GetLiteral())
+	}
 
 	//// there are some different Factors from normal method function:
 	// 1. no outerScope (clousure scope)
